@@ -152,6 +152,12 @@ func float32Bits(r *Rand, special bool) uint32 {
 		case 5:
 			f = float32(r.Intn(2000)-1000) / 8
 		case 6:
+			if r.P(1, 4) {
+				// the two float32 values (of all 2^32) whose shortest float32
+				// decimal, read as a float64 and narrowed again, rounds to the
+				// neighbouring float32 (double rounding at a midpoint)
+				return Pick(r, []uint32{0x15ae43fd, 0x95ae43fd})
+			}
 			f = Pick(r, []float32{0.1, 0.3, 1.0 / 3, 16777216, 1e10, 1e-10, 3.4e38, 1e8})
 		case 7:
 			if !special {
